@@ -2,6 +2,7 @@ import HbsModel.Registry
 import HbsModel.Lemmas.RM
 import HbsModel.Lemmas.Block
 import HbsModel.Lemmas.EachBlock
+import HbsModel.Lemmas.EachBodyBlock
 import HbsModel.Lemmas.RenderPlain
 import HbsModel.Props.C01
 /-
@@ -246,5 +247,125 @@ theorem each_block_renders_body_per_element (r : Registry) (fs : FS) (L R : Str)
 example : assocGet Registry.new.helpers ['e', 'a', 'c', 'h'] = some .each ∧
     (List.replicate (JList.ofList [Json.null, Json.bool true, Json.str []]).toList.length ['A']).flatten = ['A', 'A', 'A'] := by
   refine ⟨by rfl, by decide⟩
+
+
+/-! ### `{{#each v}}` X `{{/each}}` for EVERY body text X – at source level -/
+
+/-- the block element `{{#each v}} X {{/each}}` compiles to, on an ARRAY of any length `n` stored under `v`: the body is written once
+    per element – `n` times, in order – and the render state is left as it was (the scope pushed for the iteration is popped);
+    `n + 12` units of fuel above any amount suffice (the loop of the model spends one per element) -/
+theorem each_any_text_block_writes (X : Str) (reg : Registry) (root : Json) (rc0 : RC) (xs : JList) (lc : Nat × Nat)
+    (hb : rc0.blocks = [{}]) (hi : rc0.indentString = none) (hmc : rc0.modifiedCtx = none) (hct : rc0.currentTemplate = none)
+    (hl : assocGet rc0.localHelpers ['e', 'a', 'c', 'h'] = none) (hr : assocGet reg.helpers ['e', 'a', 'c', 'h'] = some .each)
+    (hsafe : Spec.indexSafe root [['v']] = true) (hj : Spec.descend root [['v']] = some (.arr xs)) :
+    WritesTextK (xs.toList.length + 12) reg root rc0 (.block (PlainText.eaHT (PlainText.eaBodyX X lc)))
+      (List.replicate xs.toList.length X).flatten := by
+  intro fuel rc out hq hf
+  have hblocks : rc.blocks = [{}] := by rw [hq.blocks, hb]
+  have hev : evaluate2 root (.relative [.named ['v']] ['v']) rc out = .ok (.context (.arr xs) [['v']]) rc out := by
+    have := C01.navigate_current_path_scope root {} [] ['v'] [] rc out (by simp [getInBlockParams, assocGet]) rfl (by simpa using hsafe)
+    simp only [C01.names, List.map_cons, List.map_nil] at this
+    simp only [evaluate2, RM.bind_def, RM.bnd_apply, RM.get_apply, hblocks, this, C01.blockValue, Spec.descend]
+    simp only [Option.bind]
+    have hj' : (Spec.step root ['v']).bind (fun v' => Spec.descend v' []) = some (.arr xs) := by simpa [Spec.descend] using hj
+    simp [Spec.descend] at hj' ⊢
+    rw [hj']
+  have hmc' : rc.modifiedCtx = none := by rw [hq]; exact hmc
+  have hl' : assocGet rc.localHelpers ['e', 'a', 'c', 'h'] = none := by rw [hq]; exact hl
+  have hpath : Path.new ['v'] [.named ['v']] = .relative [.named ['v']] ['v'] := rfl
+  have hh : helperFromTemplate reg root (fuel + xs.toList.length + 10) (PlainText.eaHT (PlainText.eaBodyX X lc)) rc out
+      = .ok { name := ['e', 'a', 'c', 'h'], params := [⟨some ['v'], .context (.arr xs) [['v']]⟩], hash := [], template := some (PlainText.eaBodyX X lc), inverse := none, blockParam := none, block := true } rc out := by
+    rw [show fuel + xs.toList.length + 10 = (fuel + xs.toList.length + 7) + 1 + 1 + 1 by omega]
+    simp [helperFromTemplate, PlainText.eaHT, PlainText.eaOpen, HelperG.new, expandAsName, expandParams, expandParam, expandHash,
+      RM.bnd_apply, hmc', hpath, hev, Path.raw]
+  have hm1 := quiet_modifyAux rc0 rc (fun r => { r with contentProduced := false, indentBeforeWrite := rc.indentBeforeWrite || ((PlainText.eaHT (PlainText.eaBodyX X lc)).indentBeforeWrite && r.trailingNewline) }) out hq (hq.flags _ _ _)
+  rw [show fuel + (xs.toList.length + 12) = (fuel + xs.toList.length + 10) + 1 + 1 by omega]
+  simp only [renderElem, renderHelper, RM.bind_def, RM.bnd_apply, hh, RM.get_apply, hl', hr, hm1]
+  have hibw : (PlainText.eaHT (PlainText.eaBodyX X lc)).indentBeforeWrite = false := rfl
+  simp only [hibw, Bool.false_and, Bool.or_false]
+  -- the call of `each`
+  have hqA : Quiet rc0 { rc with contentProduced := false } := hq.flags _ _ _
+  let rcA : RC := { rc with contentProduced := false }
+  let items : List (Nat × Option Str × Str × Json) := xs.toList.zipIdx.map (fun (v, i) => (i, none, natToStr i, v))
+  have hitems : items.length = xs.toList.length := by simp [items]
+  obtain ⟨rc3, out3, hloop, ⟨b3, hq3⟩, hf3, ht3⟩ := eachLoop_text reg root X lc
+    { name := ['e', 'a', 'c', 'h'], params := [⟨some ['v'], .context (.arr xs) [['v']]⟩], hash := [], template := some (PlainText.eaBodyX X lc), inverse := none, blockParam := none, block := true }
+    (some [['v']]) xs.toList.length items (fuel + 5) { rcA with blocks := { basePath := [['v']] } :: rcA.blocks } out { basePath := [['v']] } rcA.blocks
+    (by show rc.indentString = none; rw [hq.indent]; exact hi) (by show rc.currentTemplate = none; rw [Quiet.template hq]; exact hct) rfl hf
+  have hcall : callHelper reg root (fuel + xs.toList.length + 10) .each { name := ['e', 'a', 'c', 'h'], params := [⟨some ['v'], .context (.arr xs) [['v']]⟩], hash := [], template := some (PlainText.eaBodyX X lc), inverse := none, blockParam := none, block := true } rcA out
+      = .ok () { rc3 with blocks := rc3.blocks.drop 1 } out3 := by
+    rw [show fuel + xs.toList.length + 10 = (fuel + 5 + items.length + 4) + 1 by omega]
+    simp only [callHelper, HelperKind.hasInner, Bool.false_eq_true, ↓reduceIte, List.getElem?_cons_zero, PJ.json, SJ.asJson, PJ.contextPath,
+      SJ.contextPath, createBlock, Option.isNone_none, Bool.or_true, RM.withBlock, RM.bracket_apply]
+    unfold PlainText.eaBodyX at hloop ⊢
+    simp only [items, hitems] at hloop ⊢
+    rw [hloop]
+  rw [hcall]
+  simp only []
+  have hq4 : Quiet rc0 { rc3 with blocks := rc3.blocks.drop 1 } := by
+    have hrcA : Quiet rc0 rcA := hqA
+    unfold Quiet at hq3 hrcA ⊢
+    rw [hq3]
+    simp only [List.drop_succ_cons, List.drop_zero]
+    rw [hrcA]
+  have hqG : Quiet rc0 ((fun rc_1 : RC => if rc_1.contentProduced = true then { rc_1 with indentBeforeWrite := rc_1.trailingNewline } else { rc_1 with contentProduced := rc.contentProduced, indentBeforeWrite := rc.indentBeforeWrite }) { rc3 with blocks := rc3.blocks.drop 1 }) := by
+    by_cases hcp : rc3.contentProduced = true
+    · simp only [hcp, ↓reduceIte]; exact Quiet.flags hq4 _ _ _
+    · simp only [hcp, ↓reduceIte]; exact Quiet.flags hq4 _ _ _
+  refine ⟨_, _, quiet_modifyAux rc0 _ _ out3 hq4 hqG, hqG, hf3, ?_⟩
+  rw [ht3, hitems]
+
+/-- `{{#each v}} X {{/each}}` -/
+abbrev eachBlockSrcX (X : Str) : Str := PlainText.eaXSrc X
+
+/-- **render(L ++ {{#each v}} X {{/each}} ++ R) = L ++ A…A ++ R, one `A` per element** – from the source string to the bytes, for EVERY
+    text `L` that may stand before a tag, EVERY text `R` without `{{`, and EVERY array stored under `v` (of any length `n` that
+    the model's fuel covers: `n + 30 ≤ 4000`; the empty array included – then nothing is written): the body is rendered once per
+    element, in order, and the output is the concatenation.  Through the regenerated grammar (the block's pairs by kernel
+    evaluation), the loop of compile2, and the renderer: `renderHelper`, the `each` helper – scope pushed, one iteration per
+    element by induction over the list (`eachLoop_text`), scope popped. -/
+theorem each_block_any_body_per_element (r : Registry) (fs : FS) (X L R : Str) (hX : PlainText.BlockText X) (data : Json) (xs : JList) (hdev : r.dev = false)
+    (hL : L = [] ∨ PlainText.TextBeforeTag L) (hR : PlainText.noOpen R)
+    (heach : assocGet r.helpers ['e', 'a', 'c', 'h'] = some .each)
+    (hsafe : Spec.indexSafe data [['v']] = true) (hj : Spec.descend data [['v']] = some (.arr xs))
+    (hlen : xs.toList.length + 30 ≤ renderFuel) :
+    r.renderTemplate fs (L ++ eachBlockSrcX X ++ R) data = .ok (L ++ (List.replicate xs.toList.length X).flatten ++ R) := by
+  unfold Registry.renderTemplate Registry.renderTemplateToWrite Registry.renderTemplateWithContextToWrite
+    Registry.compileForRenderTemplate
+  obtain ⟨m, hcomp⟩ := PlainText.compile_text_eaX_text X L _ _ { preventIndent := r.preventIndent } hX hL (PlainText.textAfterTag_split R hR)
+  rw [← PlainText.split_ws R] at hcomp
+  rw [hcomp]
+  simp only [Registry.renderResolved, hdev, Bool.not_false, ↓reduceIte]
+  generalize Pest.lineCol (L ++ PlainText.eaXSrc X ++ R) (L.length + 11) = lc
+  let txt : Str := (List.replicate xs.toList.length X).flatten
+  let ets : List (Elem × Str) := (if L = [] then [] else [(.raw L, L)]) ++ [(.block (PlainText.eaHT (PlainText.eaBodyX X lc)), txt)]
+    ++ (if R = [] then [] else [(.raw R, R)])
+  have hel : (PlainText.leftT L L).elements ++ [Elem.block (PlainText.eaHT (PlainText.eaBodyX X lc))] ++ (if R = [] then [] else [Elem.raw R])
+      = ets.map (·.1) := by
+    simp only [ets]
+    by_cases hLe : L = [] <;> by_cases hRe : R = [] <;> simp [hLe, hRe, PlainText.leftT, Tmpl.empty, Tmpl.elements]
+  have htxt : (ets.map (·.2)).flatten = L ++ txt ++ R := by
+    simp only [ets]
+    by_cases hLe : L = [] <;> by_cases hRe : R = [] <;> simp [hLe, hRe]
+  rw [hel]
+  have hw : ∀ p ∈ ets, WritesTextK (xs.toList.length + 12) r data { ({ rootTemplate := none } : RC) with currentTemplate := none } p.1 p.2 := by
+    intro p hp
+    simp only [ets, List.mem_append, List.mem_singleton] at hp
+    rcases hp with (hp | rfl) | hp
+    · split at hp
+      · simp at hp
+      · simp at hp; subst hp; exact (writes_raw r data _ rfl L).toK _ (by omega)
+    · exact each_any_text_block_writes X r data _ xs lc rfl rfl rfl rfl rfl heach hsafe hj
+    · split at hp
+      · simp at hp
+      · simp at hp; subst hp; exact (writes_raw r data _ rfl R).toK _ (by omega)
+  have hlen' : ets.length + (xs.toList.length + 12) + 6 ≤ renderFuel := by
+    have h1 : (if L = [] then [] else [((Elem.raw L, L) : Elem × Str)]).length ≤ 1 := by split <;> simp
+    have h2 : (if R = [] then [] else [((Elem.raw R, R) : Elem × Str)]).length ≤ 1 := by split <;> simp
+    simp only [ets, List.length_append, List.length_singleton]
+    omega
+  have := render_writes_templateK (xs.toList.length + 12) r data none ets m { rootTemplate := none } hlen' hw
+  simp only [Tmpl.name] at this ⊢
+  rw [this, htxt]
 
 end Hbs.C07
